@@ -26,14 +26,30 @@ TRUSTED = ["the PCBO constraint methods (C02)", "puso_to_pubo / pubo_to_puso (C0
 RELS = C02.RELS
 
 
+def _seed_mode(fn):
+    """'object' when _empty_pcbo(x) seeds the helper with x's counter (x._ancilla / x.num_ancillas), 'counter' when it
+    seeds it with x itself (the caller passes the counter)."""
+    for n in ast.walk(fn.module.tree):
+        if isinstance(n, ast.FunctionDef) and n.name == '_empty_pcbo' and n.args.args:
+            prm = n.args.args[0].arg
+            for a in ast.walk(n):
+                if isinstance(a, ast.Assign) and any(isinstance(t, ast.Attribute) and t.attr == '_ancilla' for t in a.targets):
+                    if is_name(a.value, prm):
+                        return 'counter'
+    return 'object'
+
+
 def is_seeded(fn, e, selfn, at, depth=4):
     """Does expression e (the receiver of the boolean constraint call / the helper whose counter is handed back) denote
     a PCBO seeded with self's ancilla counter: `_empty_pcbo(self)`, possibly through chained calls that return their
     receiver and through local names, or a `PCBO()` local whose `_ancilla` was set from self's counter before `at`."""
     while isinstance(e, ast.Call) and isinstance(e.func, ast.Attribute):
         e = e.func.value
-    if isinstance(e, ast.Call) and call_name(e) == '_empty_pcbo' and e.args and is_name(e.args[0], selfn):
-        return True
+    if isinstance(e, ast.Call) and call_name(e) == '_empty_pcbo' and e.args:
+        if _seed_mode(fn) == 'counter':
+            # the helper takes the counter itself
+            return src(e.args[0]) in ('%s._ancilla' % selfn, '%s.num_ancillas' % selfn)
+        return is_name(e.args[0], selfn)
     if isinstance(e, ast.Name) and depth > 0:
         g = cfg_of(fn.node)
         seeds = [n for n in g.stmts() if isinstance(n, ast.Assign) and any(src(t) == '%s._ancilla' % e.id for t in n.targets)
@@ -227,7 +243,7 @@ def rules(ctx):
         for r in rets:
             rv = src(r.value)
             s_ok = [s for s in seeds if src(s.targets[0]) == '%s._ancilla' % rv and
-                    src(s.value) in ('%s._ancilla' % prm, '%s.num_ancillas' % prm)]
+                    src(s.value) in ('%s._ancilla' % prm, '%s.num_ancillas' % prm, prm)]     # prm: the callers pass the counter
             ok = ok and bool(s_ok) and g.dominates(s_ok, r)
             ts = R.infer(r.value, ep, None)
             ok = ok and ts == {'PCBO'}
